@@ -24,6 +24,9 @@ fn pool_key(p: &pm::PoolInfoResponse) -> String {
 }
 
 pub fn oracle(c: &PuCtx, rec: &mut Rec) {
+    if c.post_malformed() {
+        return; // a pool lost part of its reserve list (C16 reports it); nothing here is defined on such a state
+    }
     // LP supply moves only through deposits into / withdrawals from that very pool
     for p in &c.post.pools {
         let lp = &p.pool_info.lp_denom;
